@@ -338,8 +338,12 @@ func runScalars(raw json.RawMessage, seed int64, rec *Rec) {
 			reached.Add(1)
 			return nil, errors.New("verif: not sent")
 		}
-		client := connect.NewClient[BV, BV](fake, "http://verif.test/verif.v1.Svc/M",
-			append(clientProtoOpts(s.Proto), connect.WithSendCompression("no-such-algorithm"))...)
+		url, extra := "http://verif.test/verif.v1.Svc/M", []connect.ClientOption{connect.WithSendCompression("no-such-algorithm")}
+		if s.Used == "badurl" {
+			// accepted when the client is built (url.ParseRequestURI), refused when the request is (url.Parse)
+			url, extra = "http://verif.test/verif.v1.Svc/M?#%", nil
+		}
+		client := connect.NewClient[BV, BV](fake, url, append(clientProtoOpts(s.Proto), extra...)...)
 		codes := []int{}
 		note := func(err error) { codes = append(codes, codeOf(err)) }
 		ctx := context.Background()
